@@ -33,10 +33,28 @@ type node struct {
 	pts   []xy
 	rings [][]xy
 	kids  []*node
+	// coordinates type of the whole tree when built (0 XY, 1 XYZ, 2 XYM, 3 XYZM; read at the root
+	// only) and the seed of the Z/M values; validity is a property of the XY point set
+	ct    int
+	zseed uint64
+}
+
+// build context: coordinates type and the generator of Z/M values of the geometry being built
+var (
+	curCT geom.CoordinatesType
+	curZ  *lib.Rng
+	curI  int
+)
+
+// zm returns Z and M for the next vertex: different for every vertex of the geometry, so that
+// vertices with equal XY never have equal Z or M
+func zm() (float64, float64) {
+	curI++
+	return float64(3*curI + curZ.Intn(3)), float64(-2*curI - curZ.Intn(2))
 }
 
 func (n *node) clone() *node {
-	c := &node{kind: n.kind, pts: append([]xy(nil), n.pts...)}
+	c := &node{kind: n.kind, pts: append([]xy(nil), n.pts...), ct: n.ct, zseed: n.zseed}
 	for _, r := range n.rings {
 		c.rings = append(c.rings, append([]xy(nil), r...))
 	}
@@ -47,18 +65,37 @@ func (n *node) clone() *node {
 }
 
 func seqOf(ps []xy) geom.Sequence {
-	fs := make([]float64, 0, 2*len(ps))
+	fs := make([]float64, 0, 4*len(ps))
 	for _, p := range ps {
 		fs = append(fs, p.x, p.y)
+		if curCT != geom.DimXY {
+			z, m := zm()
+			if curCT.Is3D() {
+				fs = append(fs, z)
+			}
+			if curCT.IsMeasured() {
+				fs = append(fs, m)
+			}
+		}
 	}
-	return geom.NewSequence(fs, geom.DimXY)
+	return geom.NewSequence(fs, curCT)
 }
 
 func (n *node) point() geom.Point {
 	if len(n.pts) == 0 {
-		return geom.NewEmptyPoint(geom.DimXY)
+		return geom.NewEmptyPoint(curCT)
 	}
-	return geom.NewPoint(geom.Coordinates{XY: geom.XY{X: n.pts[0].x, Y: n.pts[0].y}, Type: geom.DimXY})
+	c := geom.Coordinates{XY: geom.XY{X: n.pts[0].x, Y: n.pts[0].y}, Type: curCT}
+	if curCT != geom.DimXY {
+		z, m := zm()
+		if curCT.Is3D() {
+			c.Z = z
+		}
+		if curCT.IsMeasured() {
+			c.M = m
+		}
+	}
+	return geom.NewPoint(c)
 }
 func (n *node) line() geom.LineString { return geom.NewLineString(seqOf(n.pts)) }
 func (n *node) poly() geom.Polygon {
@@ -70,6 +107,12 @@ func (n *node) poly() geom.Polygon {
 }
 
 func (n *node) build() geom.Geometry {
+	curCT = []geom.CoordinatesType{geom.DimXY, geom.DimXYZ, geom.DimXYM, geom.DimXYZM}[n.ct&3]
+	curZ, curI = lib.NewRng(n.zseed), 0
+	return n.build0()
+}
+
+func (n *node) build0() geom.Geometry {
 	switch n.kind {
 	case "P":
 		return n.point().AsGeometry()
@@ -98,7 +141,7 @@ func (n *node) build() geom.Geometry {
 	default:
 		gs := make([]geom.Geometry, len(n.kids))
 		for i, k := range n.kids {
-			gs[i] = k.build()
+			gs[i] = k.build0()
 		}
 		return geom.NewGeometryCollection(gs).AsGeometry()
 	}
@@ -262,6 +305,10 @@ func observe(n *node) string {
 		val = verdict(func() error { return g.MustAsGeometryCollection().Validate() })
 	}
 	gval := verdict(func() error { return g.Validate() })
+	f2d := "-"
+	if n.ct != 0 {
+		f2d = verdict(func() error { return g.Force2D().Validate() })
+	}
 	wkt, wkb, js := "-", "-", "-"
 	fin := n.finite()
 	if fin {
@@ -280,7 +327,7 @@ func observe(n *node) string {
 			return err
 		})
 	}
-	out := "val=" + val + " gval=" + gval + " wkt=" + wkt + " wkb=" + wkb + " json=" + js
+	out := "val=" + val + " gval=" + gval + " wkt=" + wkt + " wkb=" + wkb + " json=" + js + " f2d=" + f2d
 	if n.kind == "L" && fin && maxAbs(n) <= 1<<20 { // the predicates multiply ordinates: lattice domain only
 		ls := g.MustAsLineString()
 		out += " simple=" + flag(ls.IsSimple) + " ring=" + flag(ls.IsRing) + " closed=" + flag(ls.IsClosed)
@@ -874,6 +921,30 @@ func genTwoTouch(r *lib.Rng) *node {
 		}
 	}
 	n := &node{kind: "Y", rings: [][]xy{rotateRing(shell, r.Intn(4))}}
+	if r.Chance(1, 3) {
+		// a hole OUTSIDE the shell touching it in exactly one point, which is the hole's start
+		// vertex; the start vertex once, twice or three times
+		out := func() xy {
+			for {
+				p := xy{float64(r.Range(-3, s+3)), float64(r.Range(-3, s+3))}
+				if p.x < 0 || p.x > float64(s) || p.y < 0 || p.y > float64(s) {
+					return p
+				}
+			}
+		}
+		h := []xy{t1}
+		for k := r.Intn(3); k > 0; k-- {
+			h = append(h, t1)
+		}
+		h = append(h, out(), out(), t1)
+		n.rings = append(n.rings, h)
+		if r.Chance(1, 3) {
+			p, q := in[r.Intn(len(in))], in[r.Intn(len(in))]
+			n.rings = append(n.rings, []xy{in[r.Intn(len(in))], p, q, in[0]})
+			n.rings[2][3] = n.rings[2][0]
+		}
+		return n
+	}
 	switch r.Intn(4) {
 	case 0: // the diagonal diamond of the example: touches two corners / boundary points
 		p, q := in[r.Intn(len(in))], in[r.Intn(len(in))]
@@ -1226,6 +1297,31 @@ func variants(base *node, r *lib.Rng, maxRot int) []variant {
 			i++
 		})
 		out = append(out, variant{"dup", c2})
+	}
+	// the same XY geometry with Z / M / ZM ordinates that differ from vertex to vertex
+	for k := 0; k < 2; k++ {
+		c := base.clone()
+		c.ct = r.Range(1, 3)
+		c.zseed = r.U64()
+		out = append(out, variant{"zm", c})
+	}
+	// a MultiPolygon inside collections of depth 1..3 with valid siblings: the bare verdict
+	if base.kind == "MY" {
+		for k := 0; k < 2; k++ {
+			c := base.clone()
+			for d := r.Range(1, 3); d > 0; d-- {
+				w := &node{kind: "GC"}
+				if r.Bool() {
+					w.kids = append(w.kids, &node{kind: "P", pts: []xy{gp(r, 0, 5)}})
+				}
+				w.kids = append(w.kids, c)
+				if r.Chance(1, 3) {
+					w.kids = append(w.kids, &node{kind: "L", pts: []xy{{0, 0}, {1, 2}}})
+				}
+				c = w
+			}
+			out = append(out, variant{"wrap", c})
+		}
 	}
 	// holes / members permuted
 	{
